@@ -274,5 +274,6 @@ func init() {
 		errRulesFor(run, p, "primitives/ed25519/extra/ecvrf")
 		arithmeticFoundations(c)
 		groupFoundations(c, true)
+		readFullRule(c)
 	}
 }
